@@ -40,5 +40,5 @@ Print Assumptions C19_strict_order_positions.
 (* an instance of another data type is rejected *)
 Theorem C19_wrong_type_rejected : forall want actual pol m votes,
   kind_eqb want actual = false -> convert_checked want actual pol m votes = None.
-Proof. intros want actual pol m votes H. unfold convert_checked. rewrite H. reflexivity. Qed.
+Proof. exact wrong_type_rejected. Qed.
 Print Assumptions C19_wrong_type_rejected.
